@@ -3,7 +3,7 @@
    cope with - and the driver synthesises bytes for each, runs goom's pure relocation on them and Trace_Reloc judges
    the result exactly like a real function.
    An abstract instruction is [k, t]: kind and, for PC-relative kinds, the class of its target:
-     kinds   p1 p3 p5 p6 (plain, by length)   j8w (rel8, widenable: JE)   j8n (rel8, not widenable: JNE)   jmp8
+     kinds   p1 p3 p5 p6 (plain, by length)   p3c p6c (plain, last byte 0xC3: reads as RET to anything that looks at bytes)   j8w (rel8, widenable: JE)   j8n (rel8, not widenable: JNE)   jmp8
              jcc32  jmp32  call32   rip7 (cmp dword [rip+d], imm8: displacement followed by an immediate)   lea7   ret
      targets "entry" (offset 0)  "second" (start of the 2nd instruction: inside the copied prefix)
              "end" (the final RET of the function)  "ext" (4 KiB past the function)
